@@ -187,7 +187,8 @@ def run_one(choices, params):
         return [VALUE_MAKERS[w.draw(len(VALUE_MAKERS))]() for _ in range(n)]
 
     def sized():
-        return w.pick((0, 1, 200, 255, 256, 2990, 3000, 3001, 3010, 63990, 64000, 64010, 70000))
+        # the threshold applies to the whole encoded message (blob + a dozen bytes of envelope), so sweep the neighbourhood
+        return w.pick((0, 1, 200, 255, 256, 2970 + w.draw(45), 2970 + w.draw(45), 3001, 3010, 63990, 64000, 64010, 70000))
 
     # ------------------------------------------------------------------------------------------------------
     def main_ref_client(sim, k):
